@@ -20,6 +20,7 @@ const char K_CACHE_FAMILY[] = "C38/cache-ignores-family";
 const char K_CACHE_DUP[] = "C38/cache-duplicates-addresses";
 const char K_HOSTS_PORT[] = "C38/hosts-port-missing-on-second-entry";
 const char K_CACHE_TTL[] = "C38/cache-outlives-ttl";
+const char K_CACHE_CANON[] = "C38/cache-canonname-drops-addresses";
 const int64_t SKEW_US = 3000000, TIMEOUT_US = 5000000;
 
 bool g_have_http;
@@ -321,12 +322,107 @@ extern "C" int LLVMFuzzerTestOneInput(const uint8_t *data, size_t size) {
     } else verif_class("cache_miss");
     if (rq2) { evdns_getaddrinfo_cancel(rq2); w.turn(); CHECK(g2.calls == 1, "C38/callback-count", "second lookup: callback ran %d times after cancel", g2.calls); }
   }
+  // ---- phase 3 (every choice drawn after all earlier ones): the entry of an already-cached name is REWRITTEN - one or two further
+  // lookups of the name are started back to back (so two can be in flight together), with AI_CANONNAME (an entry without canonical name
+  // does not satisfy it) or after the entry's expiry, and are answered with their own addresses / TTLs / delays - and then the name is
+  // looked up once more at an age chosen around the new TTLs.  Oracle for every lookup answered at once: cache clauses (a)-(c) against
+  // ALL completed lookups of the case: each address only within (completion of a lookup that delivered it + the largest TTL the
+  // nameserver ever gave that address), and the list equals what one completed lookup delivered.
+  bool did_third = false;
+  bool want_third = dns_path && g.err == 0 && !no_cache && s.below(2) == 1;
+  if (want_third && first_indecisive && verif_known(K_CACHE_DUP)) { verif_known_skipped(K_CACHE_DUP); want_third = false; }
+  if (want_third) {
+    did_third = true;
+    for (int i = 0; i < 6; i++) w.turn();
+    bool asked0[2] = {queries[0] > 0, queries[1] > 0}; bool asked_ever[2] = {asked0[0], asked0[1]};
+    std::vector<std::vector<Ent>> originals; std::map<Addr, int64_t> fresh_until;
+    bool canon_on_some = false;   // a delivered answer of several entries carried the canonical name on some of them only (evutil convention: on the first)
+    auto note = [&](const Gai &gx, int per) { std::vector<Ent> src = gx.ents, red; std::sort(src.begin(), src.end());
+      { bool with = false, without = false; for (auto &e : gx.ents) (e.has_canon ? with : without) = true; if (with && without) canon_on_some = true; }
+      for (size_t i = 0; i < src.size(); i += per) { Ent e = src[i]; e.a.port = 0; e.socktype = SOCK_STREAM; e.protocol = IPPROTO_TCP; e.has_canon = false; e.canon.clear(); red.push_back(e);
+        int64_t &f = fresh_until[e.a]; f = std::max(f, gx.at + (int64_t)sent_ttl[e.a] * 1000000); }
+      originals.push_back(red); };
+    note(g, first_indecisive ? 2 : 1);
+    auto judge = [&](const Gai &gx, int famx, int portx, bool canonx, const char *what) {
+      int64_t now = sim_now_us(); bool need[2] = {famx != AF_INET6, famx != AF_INET};
+      for (int t = 0; t < 2; t++) if (need[t] && !asked_ever[t]) VERIF_FAIL(K_CACHE_FAMILY, "%s: no lookup ever asked for %s records, yet a lookup with family %d was answered from the cache at once (err=%d %s)", what, t ? "AAAA" : "A", famx, gx.err, show(gx.ents).c_str());
+      if (gx.err != 0) return;
+      for (auto &e : gx.ents) { Addr k = e.a; k.port = 0; auto it = fresh_until.find(k);
+        CHECK(it != fresh_until.end(), "C38/cache-differs", "%s: the cache returned %s, which no completed lookup had delivered", what, e.a.str().c_str());
+        CHECK(now <= it->second + 1000000, K_CACHE_TTL, "%s: %s returned from the cache %lldus after the completion of the last lookup that delivered it, although the largest TTL the nameserver ever gave it is %us", what, e.a.str().c_str(), (long long)(now - (it->second - (int64_t)sent_ttl[k] * 1000000)), sent_ttl[k]); }
+      bool match = false; std::string all;
+      for (auto &o : originals) { std::vector<Ent> exp; for (auto e : o) { if (famx != AF_UNSPEC && e.a.family != famx) continue; e.a.port = (uint16_t)portx; exp.push_back(e); } if (same_multiset(gx.ents, exp)) match = true; all += "{" + show(exp) + "} "; }
+      bool canon_subset = false;   // open finding: with AI_CANONNAME only the cached entries that carry the canonical name themselves are returned
+      if (!match && canonx && canon_on_some) for (auto &o : originals) { std::vector<Ent> rest = o; bool sub = true; for (auto e : gx.ents) { e.a.port = 0; auto it = std::find(rest.begin(), rest.end(), e); if (it == rest.end()) { sub = false; break; } rest.erase(it); } if (sub) canon_subset = true; }
+      CHECK(match, canon_subset ? K_CACHE_CANON : "C38/cache-differs", "%s: cached answer %s equals none of the answers delivered before (family %d): %s", what, show(gx.ents).c_str(), famx, all.c_str());
+    };
+    auto pass_time = [&](int64_t wait_us) { if (wait_us <= 0) return; struct timeval tv; tv.tv_sec = wait_us / 1000000; tv.tv_usec = wait_us % 1000000; int64_t target = sim_now_us() + wait_us;
+      event_base_once(w.base, -1, EV_TIMEOUT, [](evutil_socket_t, short, void *) {}, nullptr, &tv);
+      for (int i = 0; i < 400 && sim_now_us() < target; i++) { Datagram d; while (udp_recv(0, &d)) {} if (!w.advance()) break; } w.turn(); };
+    uint32_t tmax1 = 0; for (int t = 0; t < 2; t++) if (asked0[t] && plan[t].kind == 0) tmax1 = std::max(tmax1, plan[t].ttl);
+    // choices
+    int famr = FAMS[s.below(3)]; int fam_first = (asked0[0] && asked0[1]) ? AF_UNSPEC : asked0[0] ? AF_INET : AF_INET6;
+    if (verif_known(K_CACHE_FAMILY) && famr != fam_first) { verif_known_skipped(K_CACHE_FAMILY); famr = fam_first; }
+    n_re = 1 + (int)s.below(2); bool re_canon[2] = {false, false};
+    static const uint32_t TTLS3[] = {2, 60, 10, 300}; static const int64_t DELAYS3[] = {0, 1000000, 100, 2900000, 500000};
+    for (int r = 0; r < n_re; r++) { re_canon[r] = s.chance(1, 2); bool cn = s.chance(1, 3);
+      for (int t = 0; t < 2; t++) { Plan &p = rplan[r][t]; int k = (int)s.below(8); p.kind = k == 6 ? 1 : k == 7 ? 2 : 0;
+        int n = 1 + (int)s.below(3); for (int i = 0; i < n; i++) p.addrs.push_back(t == 0 ? mk4(198, 51, 100, (uint8_t)(1 + s.below(5))) : mk6((uint8_t)(1 + s.below(5)), 0x77));
+        p.ttl = TTLS3[s.below(4)]; p.delay_us = DELAYS3[s.below(5)]; p.cname = cn; } }
+    int64_t pre_us = s.below(3) == 2 ? (int64_t)tmax1 * 1000000 + 1500000 : 0;
+    bool needr[2] = {famr != AF_INET6, famr != AF_INET};
+    uint32_t rmin = 0xffffffff, rmax = 0; for (int r = 0; r < n_re; r++) for (int t = 0; t < 2; t++) if (needr[t] && rplan[r][t].kind == 0) { rmin = std::min(rmin, rplan[r][t].ttl); rmax = std::max(rmax, rplan[r][t].ttl); }
+    if (!rmax) { rmin = 2; rmax = tmax1; }
+    int64_t waits3[] = {(int64_t)rmin * 1000000 + 1500000, 0, (int64_t)rmin * 1000000 - 1500000, (int64_t)rmax * 1000000 + 1500000, (int64_t)rmax * 1000000 - 1500000, 3500000};
+    int64_t wait3 = waits3[s.below(6)]; if (wait3 < 0) wait3 = 0;
+    int faml = FAMS[s.below(3)]; bool lcanon = s.chance(1, 4); int portl = s.flag() ? 443 : 0;
+    if (verif_known(K_CACHE_FAMILY) && faml != famr) { verif_known_skipped(K_CACHE_FAMILY); faml = famr; }
+    for (int r = 0; r < n_re; r++) for (int t = 0; t < 2; t++) TR("  rewrite lookup %d plan %s: kind=%d n=%zu ttl=%u delay=%lldus cname=%d", r, t ? "AAAA" : "A", rplan[r][t].kind, rplan[r][t].addrs.size(), rplan[r][t].ttl, (long long)rplan[r][t].delay_us, rplan[r][t].cname);
+    // the rewriting lookups
+    pass_time(pre_us); { Datagram d; while (udp_recv(0, &d)) {} }
+    if (canon_on_some && verif_known(K_CACHE_CANON)) for (int r = 0; r < n_re; r++) if (re_canon[r]) { verif_known_skipped(K_CACHE_CANON); re_canon[r] = false; }
+    phase3 = true; Gai gr[2]; struct evdns_getaddrinfo_request *rr[2] = {nullptr, nullptr}; int64_t t3 = sim_now_us();
+    for (int r = 0; r < n_re; r++) { struct evutil_addrinfo hr; memset(&hr, 0, sizeof hr); hr.ai_family = famr; hr.ai_socktype = SOCK_STREAM; hr.ai_flags = re_canon[r] ? EVUTIL_AI_CANONNAME : 0;
+      rr[r] = evdns_getaddrinfo(w.dns, node, NULL, &hr, gai_cb, &gr[r]);
+      TR("rewrite lookup %d family=%d canonname=%d at +%lldus: %s calls=%d err=%d %s", r, famr, re_canon[r], (long long)(t3 - t0), rr[r] ? "pending" : "NULL", gr[r].calls, gr[r].err, show(gr[r].ents).c_str());
+      CHECK(!(rr[r] && gr[r].calls), "C38/pending-and-called", "evdns_getaddrinfo returned a request handle although the callback already ran");
+      CHECK(rr[r] || gr[r].calls, "C38/no-callback", "evdns_getaddrinfo returned NULL without calling the callback");
+      if (gr[r].calls) { judge(gr[r], famr, 0, re_canon[r], "lookup of a cached name"); verif_class("cache_hit"); } }
+    if (n_re == 2 && rr[0] && rr[1]) verif_class("concurrent_lookups_of_one_name");
+    serve([&] { for (int r = 0; r < n_re; r++) if (!gr[r].calls) return false; return true; }, 300);
+    int order[2] = {0, 1}; if (n_re == 2 && gr[1].at < gr[0].at) std::swap(order[0], order[1]);
+    for (int oi = 0; oi < n_re; oi++) { int r = order[oi]; Gai &x = gr[r];
+      CHECK(x.calls == 1, "C38/callback-count", "lookup %d of phase 3: callback ran %d times", r, x.calls);
+      CHECK(!x.bad_shape, "C38/addrinfo-shape", "malformed addrinfo entry: %s", x.shape.c_str());
+      CHECK((x.err == 0) == !x.ents.empty(), "C38/success-without-addresses", "result %d with %zu entries", x.err, x.ents.size());
+      if (!rr[r]) continue;
+      for (int t = 0; t < 2; t++) if (needr[t]) asked_ever[t] = true;
+      TR("  rewrite lookup %d completed at +%lldus err=%d %s", r, (long long)(x.at - t0), x.err, show(x.ents).c_str());
+      if (x.err == 0) {
+        for (auto &e : x.ents) { Addr k = e.a; k.port = 0; CHECK(sent_ttl.count(k), "C38/invented-addresses", "%s was never in a reply", e.a.str().c_str()); }
+        bool live = false; for (auto &kv : fresh_until) if (kv.second > x.at) live = true;
+        if (live) verif_class("cache_entry_rewritten");
+        note(x, 1);
+      } }
+    // the lookup at a chosen age
+    for (int i = 0; i < 4; i++) w.turn();
+    pass_time(wait3); { Datagram d; while (udp_recv(0, &d)) {} }
+    if (lcanon && canon_on_some && verif_known(K_CACHE_CANON)) { verif_known_skipped(K_CACHE_CANON); lcanon = false; }
+    struct evutil_addrinfo hl; memset(&hl, 0, sizeof hl); hl.ai_family = faml; hl.ai_socktype = SOCK_STREAM; hl.ai_flags = lcanon ? EVUTIL_AI_CANONNAME : 0;
+    Gai gl; struct evdns_getaddrinfo_request *rl = evdns_getaddrinfo(w.dns, node, portl ? "443" : NULL, &hl, gai_cb, &gl);
+    TR("lookup after rewrite family=%d port=%d canonname=%d after %lldus: %s calls=%d err=%d %s", faml, portl, lcanon, (long long)wait3, rl ? "pending" : "NULL", gl.calls, gl.err, show(gl.ents).c_str());
+    CHECK(!(rl && gl.calls), "C38/pending-and-called", "evdns_getaddrinfo returned a request handle although the callback already ran");
+    CHECK(rl || gl.calls, "C38/no-callback", "evdns_getaddrinfo returned NULL without calling the callback");
+    if (gl.calls) { CHECK(!gl.bad_shape, "C38/addrinfo-shape", "malformed addrinfo entry: %s", gl.shape.c_str()); judge(gl, faml, portl, lcanon, "lookup after a cache rewrite"); verif_class("after_rewrite_cache_hit"); } else verif_class("after_rewrite_cache_miss");
+    if (rl) { evdns_getaddrinfo_cancel(rl); w.turn(); CHECK(gl.calls == 1, "C38/callback-count", "last lookup: callback ran %d times after cancel", gl.calls); }
+  }
   // a still-pending first request cannot exist here (callback ran); flush deferred work, free timers
   for (int i = 0; i < 4; i++) w.turn();
   for (auto p : pend) { event_free(p->ev); delete p; }
   servers_drain();
   w.finish("C38/leak");
   if (did_second) verif_class("second_lookup");
+  if (did_third) verif_class("rewrite_phase");
   verif_case_end(interesting, s.h);
   return 0;
 }
